@@ -639,21 +639,4 @@ def _m_f37(case, f, p):
     return m.get("outcome") == "ok" and m["lines2"] / max(1, m["lines"]) <= 4.6
 
 
-def _m_shared(fams):
-    def m(case, f, p):
-        sp = case["spec"]
-        if sp.get("kind") != "scaling" or sp.get("family") not in fams:
-            return False
-        try:
-            m_ = json.loads(f.got)[-1] if f.got.startswith("[") else json.loads(f.got)
-            m_ = json.loads(m_) if isinstance(m_, str) else m_
-        except Exception:
-            return False
-        return (m_.get("outcome") == "ok" and m_["lines2"] / max(1, m_["lines"]) <= 4.6
-                and m_["peak"] / max(1, m_.get("peak1", m_["peak"])) <= 4.6)
-    return m
-
-
-MATCHERS = {"c10_decompiler_quadratic_in_jumps": _m_f37,
-            "c10_lscr_shared_tables_or_code": _m_shared(("lscr_shared_locals", "lscr_shared_code")),
-            "c10_lscr_shared_string_constant": _m_shared(("lscr_shared_consts",))}
+MATCHERS = {"c10_decompiler_quadratic_in_jumps": _m_f37}
